@@ -178,9 +178,10 @@ prop('C03',
      design_ref='DESIGN.md §5 C03')
 
 prop('C13',
-     modules=['LarkVerif.Shape', 'LarkVerif.Heap', 'LarkVerif.LR', 'LarkVerif.LRComplete', 'LarkVerif.LRError', 'LarkVerif.Props.C13'],
+     modules=['LarkVerif.Shape', 'LarkVerif.Heap', 'LarkVerif.DeepCopy', 'LarkVerif.LR', 'LarkVerif.LRComplete', 'LarkVerif.LRError', 'LarkVerif.Props.C13'],
      theorems=['Props.C13.denotation_frame', 'Props.C13.fork_independent', 'Props.C13.in_place_adoption_is_pure', 'Props.C13.feed_then_eof_eq_parse', 'Props.C13.resume_eq_parse',
-               'Props.C13.error_state_is_a_parser_state', 'Props.C13.error_state_has_no_action', 'Props.C13.resume_from_error_state_sound', 'Props.C13.accepts_is_exact', 'LRProto.reduceLoop_vs_reductionsOn'],
+               'Props.C13.error_state_is_a_parser_state', 'Props.C13.error_state_has_no_action', 'Props.C13.resume_from_error_state_sound', 'Props.C13.accepts_is_exact', 'LRProto.reduceLoop_vs_reductionsOn',
+               'Props.C13.deepcopy_is_fresh_and_equal', 'Props.C13.fork_survives_mutation_of_original', 'Props.C13.original_survives_mutation_of_fork'],
      fingerprints=['lark/parsers/lalr_parser_state.py:ParserState.copy', 'lark/parsers/lalr_parser_state.py:ParserState.feed_token', 'lark/parsers/lalr_interactive_parser.py:InteractiveParser.copy',
                    'lark/parsers/lalr_interactive_parser.py:InteractiveParser.as_immutable', 'lark/parsers/lalr_interactive_parser.py:InteractiveParser.accepts', 'lark/parse_tree_builder.py:ChildFilterLALR.__call__',
                    'lark/tree.py:Tree.__deepcopy__'],
